@@ -130,25 +130,35 @@ def eval_file_g3(p, rows):
     out.append("Definition s1 := set_g3_momentumFalloffT %s (set_g3_positionFalloff %s "
                "(g3__updateParameters e3 (mk_g3_st 0 0 0 0 0 0 0 0 0 0) %s %s %s %s %s %s))."
                % (R(T), R(L), R(tIn), R(tOut), R(L), R(r), R(sm), R(c)))
-    out.append("""Ltac bound_a :=
-  match goal with |- context [sqrt ?u / Rabs ?v] =>
-    let a := fresh "a" in set (a := sqrt u / Rabs v);
-    first [ assert (%s <= a <= %s) by (unfold a; split; interval with (i_prec 130))
-          | assert (%s <= a <= %s) by (unfold a; split; interval with (i_prec 130)) ];
-    clearbody a
-  end.
-Ltac ev :=
+    flds = [("tailLengthInside", tIn), ("tailLengthOutside", tOut), ("wallThickness", L),
+            ("ratioPointsWall", r), ("smoothing", sm), ("wallCenter", c),
+            ("positionFalloff", L), ("momentumFalloffT", T)]
+    for k, (nm, v) in enumerate(flds):
+        out.append("Lemma F%d : g3_%s s1 = %s.\nProof. reflexivity. Qed." % (k, nm, R(v)))
+    for nm, b in (("aIn", b1), ("aOut", b2)):
+        out.append("Lemma B_%s : %s <= g3_%s s1 <= %s.\nProof. unfold s1, "
+                   "g3__updateParameters; cbv zeta; fields; split; interval with "
+                   "(i_prec 130). Qed." % (nm, R(b[0]), nm, R(b[1])))
+    out.append("""Ltac ev :=
   unfold comp1, comp2, comp3, g3_decompactify, g3_compactificationDerivatives, g3_compactify,
-    g3_totalMapping, g3_term1, g3_term2, g3_term3, g3_term4, g3_term5, s1, g3__updateParameters;
-  cbv zeta; fields; unfold atanh_R; rewrite ?tanh_exp;
-  try bound_a; try bound_a;
-  interval with (i_prec 90).""" % (R(b1[0]), R(b1[1]), R(b2[0]), R(b2[1])))
+    g3_totalMapping, g3_term1, g3_term2, g3_term3, g3_term4, g3_term5;
+  cbv zeta; cbn [fst snd]; rewrite ?F0, ?F1, ?F2, ?F3, ?F4, ?F5, ?F6, ?F7;
+  generalize B_aIn B_aOut; generalize (g3_aIn s1) (g3_aOut s1); intros aI aO HaI HaO;
+  unfold atanh_R; rewrite ?tanh_exp;
+  interval with (i_prec 90).""")
     for kind, x, y in rows:
         comp = "comp" + kind[-1]
         f = {"dec": "g3_decompactify", "jac": "g3_compactificationDerivatives",
              "com": "g3_compactify"}[kind[:3]]
         q = Fraction(y)
         tol = abs(q) / 10 ** 9 + (tIn + tOut + abs(c) + L + T) / 10 ** 12
+        if kind == "dec1":
+            # conditioning of the implementation's own float evaluation of the outer arctanh
+            # terms: their argument u satisfies u - 1 ~ (1-|x|) a^2, so binary64 rounding of u
+            # costs ~ eps * coefficient / ((1-|x|) a^2) in the map
+            amin = min(b1[0], b2[0])
+            cond = (1 + r) * (2 * r * max(tIn, tOut) - L) / r / ((1 - abs(x)) * amin * amin)
+            tol += cond / 10 ** 15
         out.append("Goal Rabs (%s (%s e3 s1) %s - %s) <= %s.\nProof. ev. Qed."
                    % (comp, f, R(x), R(q), R(tol)))
     return "\n".join(out) + "\n"
@@ -272,14 +282,18 @@ def check_maps(ctx, once, g, case, label, three):
                        dict(kind="maps", three=three, case=case, chi=float(chi[k])),
                        px + "jacobian-nonpositive")
     # Jacobian vs finite differences of the map (step relative to the distance to the ends)
-    inner = chi[np.abs(chi) < 0.9995]
-    h = 1e-3 * (1 - np.abs(inner))
+    # (the implementation's own rounding noise grows like eps/((1-|chi|) a^2) near the ends, so
+    # the comparison stays inside |chi| <= 0.99 with steps 2% of the distance to the end and of
+    # the width a of the smoothed steps at chi = +-r)
+    inner = chi[np.abs(chi) <= 0.99]
+    amin = min(float(g.aIn), float(g.aOut), 1.0) if three else 1.0   # width of the smoothed steps
+    h = 2e-2 * np.minimum(1 - np.abs(inner), amin)
     fd = fd5(zf, inner, h)
     Ji = g.compactificationDerivatives(inner, np.zeros_like(inner), np.zeros_like(inner))[0]
     rel = np.abs(fd - Ji) / np.abs(Ji)
     k = int(np.argmax(rel))
     ctx.count("direct_fd_" + label)
-    if rel[k] > 1e-5:
+    if rel[k] > 1e-4:
         once(ctx, "%s: d(xi)/d(chi) by finite differences = %r but reported Jacobian "
                        "= %r at chi=%r" % (label, fd[k], Ji[k], inner[k]),
                        dict(kind="maps", three=three, case=case, chi=float(inner[k]),
@@ -323,10 +337,10 @@ def check_maps(ctx, once, g, case, label, three):
             once(ctx, "%s: %s map not increasing" % (label, name),
                            dict(kind="maps", three=three, case=case, direction=name),
                            px + name + "-not-increasing")
-        xi = xs[(xs > -0.9995) & (xs < 0.9995)]
-        hh = 1e-3 * (1 - np.abs(xi))
+        xi = xs[(xs > -0.99) & (xs < 0.99)]
+        hh = 2e-2 * (1 - np.abs(xi))
         relm = np.abs(fd5(f, xi, hh) - fj(xi)) / np.abs(fj(xi))
-        if relm.max() > 1e-5:
+        if relm.max() > 1e-4:
             k = int(np.argmax(relm))
             once(ctx, "%s: %s Jacobian differs from finite differences at %r"
                            % (label, name, xi[k]),
@@ -723,5 +737,7 @@ def replay(rep):
         print("chi=%r map=%r jacobian=%r finite-difference=%r" % (
             x, float(zf(xa)[0]),
             float(g.compactificationDerivatives(xa, 0 * xa, 0 * xa)[0][0]),
-            float(fd5(zf, xa, 1e-3 * (1 - abs(x)))[0]) if abs(x) < 1 else None))
+            float(fd5(zf, xa, 2e-2 * min(1 - abs(x), float(getattr(g, "aIn", 1.0)),
+                                         float(getattr(g, "aOut", 1.0))))[0])
+            if abs(x) < 1 else None))
     return 0
